@@ -58,3 +58,41 @@ def _memostate(tree):
     out = _strs("stateBody", [ast.unparse(s).replace("\n", " ; ") for s in body],
                 "Interpreter.get_contextual_state without its docstring")
     return out
+
+
+@group("CallSite", "snowfakery/data_generator_runtime_object_model.py", ["C15"])
+def _callsite(tree):
+    """what the `context.unique_context_identifier` of a memorable call is: the identity of the
+    parsed value object (`StructuredValue` for a YAML call, `SimpleValue` for a formula)"""
+    found = []
+    for cls in ("SimpleValue", "StructuredValue"):
+        c = find_class(tree, cls)
+        for n in ast.walk(c):
+            if isinstance(n, ast.Assign) and any("unique_context_identifier" in ast.unparse(t) for t in n.targets):
+                found.append((n.lineno, cls, ast.unparse(n)))
+    if not found:
+        raise PinError("no assignment to unique_context_identifier found")
+    out = _pairs("contextIdentifier", [(c, a) for _, c, a in sorted(found)],
+                 "(class, assignment) for every assignment to unique_context_identifier")
+    return out
+
+
+@group("MacroParse", "snowfakery/parse_recipe_yaml.py", ["C15"])
+def _macroparse(tree):
+    """`include_macro` parses the macro's fields and friends anew for every template that includes
+    it (no cache): every inclusion gets its own value objects, hence its own call sites"""
+    f = find_func(tree, "include_macro")
+    steps = []
+    for st in f.body:
+        if isinstance(st, ast.Expr) and isinstance(st.value, ast.Constant):
+            continue
+        if isinstance(st, ast.If):
+            steps.append("if " + ast.unparse(st.test))
+        elif isinstance(st, ast.Try):
+            steps.append("try: " + " ; ".join(ast.unparse(b) for b in st.body))
+        elif isinstance(st, ast.Assign) and isinstance(st.value, ast.Call) and len(ast.unparse(st)) > 70:
+            steps.append(", ".join(ast.unparse(t) for t in st.targets) + " = " + ast.unparse(st.value.func) + "(...)")
+        else:
+            steps.append(ast.unparse(st))
+    out = _strs("includeMacroSteps", steps, "the statements of include_macro, in order")
+    return out
